@@ -51,6 +51,7 @@ def rel_angles(tier, seed):
     else:
         out += [('3e-6', 3e-6), ('3e-4', 3e-4), ('2e-3', 2e-3)]
     out += [('0.7', 0.7), ('1.9', 1.9), ('2.5', 2.5), ('pi/2', PI / 2)]
+    out += [('0.03', 0.03), ('0.07', 0.07), ('0.085', 0.085)]          # between the decades: where a "nearly parallel" shortcut of the blend would sit
     for k in ((-1, -3, -6) if tier == 'quick' else range(-6, 0)):
         out.append(('pi-1e%d' % k, PI - 10.0 ** k))
     return out
